@@ -24,7 +24,7 @@ impl Model for SrModel {
     }
     fn next_state(&self, s: &Store, i: usize) -> Option<Store> {
         let a = &self.acts[i];
-        match step(s, &self.chain, &a.sender, &a.funds, &a.msg) {
+        match crate::scenario::step_act(s, &self.chain, a) {
             Outcome::Accepted(x) => Some(x.store),
             _ => None,
         }
@@ -81,7 +81,7 @@ pub fn run() -> i32 {
     let mut s = ex1.states[0].clone();
     for a in ex1.path(last) {
         let act = &sc.l[a as usize];
-        if let Outcome::Accepted(x) = step(&s, &sc.cfg.chain, &act.sender, &act.funds, &act.msg) {
+        if let Outcome::Accepted(x) = crate::scenario::step_act(&s, &sc.cfg.chain, act) {
             s = x.store;
         }
     }
